@@ -414,6 +414,9 @@ fn run_schedule(interval: usize, acts: &[Act], drv: Option<&mut Driver>, verbose
         if (model != imp || sec_model != sec_real) && out.disagree.is_none() {
             out.disagree = Some((format!("step {i} `{}`{}", act_str(&act), if in_body { "" } else { " (closing phase)" }),
                 format!("{sec_model} {model}"), format!("{sec_real} {imp}")));
+            // the model is out of step from here on: finish the schedule on the implementation alone
+            // so that the oracle (which never looks at the model) still gets its say
+            drv = None;
         }
         // ---- oracle, safety clauses, after every section
         if out.oracle.is_none() {
@@ -441,11 +444,11 @@ fn run_schedule(interval: usize, acts: &[Act], drv: Option<&mut Driver>, verbose
                 out.oracle = Some(("worker-did-not-stop".into(), format!("step {i}: {n} worker sections ran after stop and the thread is still in the loop")));
             } }
         }
-        if out.oracle.is_some() || out.disagree.is_some() { break; }
+        if out.oracle.is_some() { break; }
         i += 1;
     }
     // ---- end-of-run oracle (only when the closing phase ran to its end)
-    if closing && closing_stage == 3 && out.oracle.is_none() && out.error.is_none() && out.disagree.is_none() {
+    if closing && closing_stage == 3 && out.oracle.is_none() && out.error.is_none() {
         if real.waiting.is_some() {
             out.oracle = Some(("worker-did-not-stop".into(), "stop requested, four more worker sections granted, thread still inside run_worker_loop".into()));
         } else if real.handle.is_running() {
@@ -565,6 +568,11 @@ fn record(sum: &mut Summary, known_sigs: &[String], interval: usize, acts: &[Act
         sum.oracle_violation("section-failed", e, case_json(interval, acts));
         return;
     }
+    if out.oracle.is_none() && out.disagree.is_some() && !out.known.is_empty() {
+        // `once` failed and the model did not go through the same states: not a known finding
+        let (sig, what) = out.known[0].clone();
+        sum.oracle_violation(&sig, &format!("{what} [model and implementation disagree on this schedule]"), case_json(interval, acts));
+    }
     if out.oracle.is_some() || out.disagree.is_some() {
         let want_oracle = out.oracle.is_some();
         let mut fails = |cand: &[Act]| {
@@ -574,8 +582,8 @@ fn record(sum: &mut Summary, known_sigs: &[String], interval: usize, acts: &[Act
         let small = if acts.len() > 1 { shrink_list(acts, &mut fails) } else { acts.to_vec() };
         let o2 = run_schedule(interval, &small, if use_model { Some(drv) } else { None }, false, true);
         let case = case_json(interval, &small);
-        if let Some((sig, what)) = o2.oracle.or(out.oracle.clone()) { sum.oracle_violation(&sig, &what, case); }
-        else if let Some((w, m, i)) = o2.disagree.or(out.disagree.clone()) { sum.disagreement(&w, case, &m, &i); }
+        if want_oracle { if let Some((sig, what)) = o2.oracle.clone().or(out.oracle.clone()) { sum.oracle_violation(&sig, &what, case.clone()); } }
+        if let Some((w, m, i)) = o2.disagree.or(out.disagree.clone()) { sum.disagreement(&w, case, &m, &i); }
         return;
     }
     // `once` failures: known only when the model went through the same states (no disagreement,
